@@ -581,6 +581,82 @@ def check_cachekey(ck, prog):
     ck.floor("C10-CACHEKEY", 1)
 
 
+def check_syncend(ck, prog):
+    """Mutexes and condition variables are resources as well (heap objects on several platforms, handles on Windows): every
+    member that an init function passes to mythread_mutex_init()/mythread_cond_init() is passed to the matching destroy
+    function by the end function of the record (directly or in a callee of the same file)."""
+    ck.rule("C10-SYNCEND", "every mutex / condition variable initialised for a coder record is destroyed by its end function")
+    n = 0
+    PAIRS = {"mythread_mutex_init": "mythread_mutex_destroy", "mythread_cond_init": "mythread_cond_destroy"}
+    for f, rec, endname in sorted(coder_records(prog), key=lambda x: (x[0].file, x[0].line)):
+        base = f.file.rsplit("/", 1)[-1]
+        inits = []
+        for g in prog.fns_in(base):
+            if not g.blocks:
+                continue
+            for b, i, e in g.iter_elems():
+                for c in ex.calls(e, into_refs=True):
+                    if c.get("fn") in PAIRS and c["args"]:
+                        a = ex.strip(c["args"][0])
+                        if a is not None and a.get("k") == "un" and a["op"] == "&":
+                            fk = ex.field_key(a["e"])
+                            if fk:
+                                inits.append((fk, c.get("fn"), g, c))
+        if not inits or not endname:
+            continue
+        # functions reachable from the end function within the file
+        endf = prog.fn(endname, base)
+        # worker threads are joined by the end function: what the thread function does on exit counts
+        thr_fns = []
+        for g in prog.fns_in(base):
+            for b, i, e in g.iter_elems():
+                for c in ex.calls(e, into_refs=True):
+                    if c.get("fn") == "mythread_create" and len(c["args"]) > 1:
+                        a = ex.strip(c["args"][1])
+                        if a is not None and a.get("k") == "un" and a["op"] == "&":
+                            a = ex.strip(a["e"])
+                        if a is not None and a.get("n"):
+                            thr_fns += [h for h in prog.functions.get(a["n"], []) if h.file == f.file and h.blocks]
+        reach, st = set(), [endf] + thr_fns
+        while st:
+            g = st.pop()
+            if g.key in reach:
+                continue
+            reach.add(g.key)
+            for b, i, e in g.iter_elems():
+                for c in ex.calls(e, into_refs=True):
+                    for h in prog.functions.get(c.get("fn") or "", []):
+                        if h.file == f.file and h.blocks:
+                            st.append(h)
+        destroyed = set()
+        for g in prog.fns_in(base):
+            if g.key not in reach:
+                continue
+            for b, i, e in g.iter_elems():
+                for c in ex.calls(e, into_refs=True):
+                    if c.get("fn") in PAIRS.values() and c["args"]:
+                        a = ex.strip(c["args"][0])
+                        if a is not None and a.get("k") == "un" and a["op"] == "&":
+                            fk = ex.field_key(a["e"])
+                            if fk:
+                                destroyed.add((fk, c.get("fn")))
+        seen = set()
+        for (fk, ifn, g, c) in inits:
+            if (fk, ifn) in seen:
+                continue
+            seen.add((fk, ifn))
+            n += 1
+            ck.saw_function(endf)
+            ok = (fk, PAIRS[ifn]) in destroyed
+            ck.ob("C10-SYNCEND", "%s:%s.%s" % (endname, fk[0].split("@")[0], fk[1]), ok, common.where(endf),
+                  "%s (or a callee) calls %s(&...->%s)" % (endname, PAIRS[ifn], fk[1]) if ok else
+                  "%s() frees the record but never calls %s() for member '%s' of %s, which %s() initialised with %s(): one "
+                  "synchronisation object per coder instance is never destroyed (a memory / handle leak on platforms where "
+                  "these objects own resources)" % (endname, PAIRS[ifn], fk[1], fk[0].split("@")[0], g.name, ifn),
+                  key="SYNCEND:%s:%s.%s" % (endname, fk[0].split("@")[0], fk[1]))
+    ck.floor("C10-SYNCEND", 6)
+
+
 SIZEKEY_EXCEPT = {
     # (buffer member, size member, storing function): reason
 }
@@ -848,4 +924,5 @@ def run(ck):
     check_initord(ck, prog)
     check_cachekey(ck, prog)
     check_sizekey(ck, prog)
+    check_syncend(ck, prog)
     check_localown(ck, prog)
